@@ -260,12 +260,18 @@ func (e *runEnv) run(injects []injectSpec) (*straceLog, error) {
 	}
 	done := make(chan error, 1)
 	go func() { done <- cmd.Wait() }()
+	// time-outs only decide when an attempt is given up (never a verdict); they follow the duration of the
+	// fault-free runs measured on this machine under the current load
 	to := runTimeout
+	if d := time.Duration(atomic.LoadInt64(&slowestRun)); 25*d > to {
+		to = 25 * d
+	}
 	for _, in := range injects {
 		if in.Kind == "error" && in.Sys == "close" {
-			to = runTimeout / 4 // a close skipped at the wrong place (a pipe of os/exec) blocks the run for ever
+			to = to / 4 // a close skipped at the wrong place (a pipe of os/exec) blocks the run for ever
 		}
 	}
+	t0 := time.Now()
 	select {
 	case <-done:
 	case <-time.After(to):
@@ -274,6 +280,11 @@ func (e *runEnv) run(injects []injectSpec) (*straceLog, error) {
 		cmd.Process.Kill()
 		<-done
 		return nil, errTimeout
+	}
+	if len(injects) == 0 {
+		if d := int64(time.Since(t0)); d > atomic.LoadInt64(&slowestRun) {
+			atomic.StoreInt64(&slowestRun, d)
+		}
 	}
 	lg, err := parseStraceFile(logf)
 	if err != nil {
@@ -586,6 +597,8 @@ func (e *runEnv) events(lg *straceLog, expect []byte) []fsEvent {
 
 var umask = 0o022
 
+var slowestRun int64 // duration (ns) of the slowest fault-free run seen so far
+
 var (
 	errTimeout = fmt.Errorf("xgo fmt timed out under strace")
 	runTimeout = 40 * time.Second
@@ -738,7 +751,9 @@ var (
 	injectRuns int64
 )
 
-func candidates(in injectSpec, maxTry int) []int {
+// shortList: the counter values that are plausible for this injection (learned from earlier hits, most
+// frequent first, then the value seen in the reference run); fullList: every value.
+func shortList(in injectSpec) []int {
 	if in.MaxN == 1 {
 		return []int{1}
 	}
@@ -759,37 +774,85 @@ func candidates(in injectSpec, maxTry int) []int {
 	})
 	var out []int
 	seen := map[int]bool{}
-	add := func(n int) {
-		if n >= 1 && !seen[n] {
-			seen[n] = true
-			out = append(out, n)
+	for _, k := range ks {
+		if !seen[k.n] {
+			seen[k.n] = true
+			out = append(out, k.n)
 		}
 	}
-	for _, k := range ks {
-		add(k.n)
+	if in.N >= 1 && !seen[in.N] {
+		out = append(out, in.N)
 	}
-	add(in.N)
+	return out
+}
+
+func fullList(in injectSpec) []int {
+	if in.MaxN == 1 {
+		return []int{1}
+	}
+	var out []int
 	for n := 1; n <= in.MaxN+2; n++ {
-		add(n)
+		out = append(out, n)
 	}
-	// every value is tried more than once: the thread assignment changes from run to run
-	rounds := append([]int{}, out...)
-	for len(rounds) < maxTry {
-		rounds = append(rounds, out...)
+	return out
+}
+
+// product enumerates the cartesian product of the lists (last list fastest).
+func product(lists [][]int) [][]int {
+	out := [][]int{{}}
+	for _, l := range lists {
+		var nxt [][]int
+		for _, p := range out {
+			for _, v := range l {
+				nxt = append(nxt, append(append([]int{}, p...), v))
+			}
+		}
+		out = nxt
 	}
-	if len(rounds) > maxTry {
-		rounds = rounds[:maxTry]
+	return out
+}
+
+// attemptPlan: which counter values to try, in which order: the plausible combinations several times
+// (the thread that runs the main goroutine changes from run to run), then every value of one injection
+// at a time with plausible values for the others, again and again up to maxTry attempts.
+func attemptPlan(injects []injectSpec, maxTry int) [][]int {
+	short := make([][]int, len(injects))
+	for i, in := range injects {
+		short[i] = shortList(in)
 	}
-	return rounds
+	var plan [][]int
+	base := product(short)
+	for r := 0; r < 4; r++ {
+		plan = append(plan, base...)
+	}
+	for len(plan) < maxTry {
+		n0 := len(plan)
+		for i := range injects {
+			lists := append([][]int{}, short...)
+			lists[i] = fullList(injects[i])
+			plan = append(plan, product(lists)...)
+		}
+		plan = append(plan, base...)
+		if len(plan) == n0 {
+			break
+		}
+	}
+	if len(plan) > maxTry {
+		plan = plan[:maxTry]
+	}
+	return plan
 }
 
 func runInjected(sc scenario, injects []injectSpec, ref []step, expect []byte, maxTry int) (*runEnv, *straceLog, []fsEvent, error) {
-	// candidate counters for the LAST injection (earlier ones carry a verified N)
+	// strace counts `when=N` per thread, so the N that worked in an earlier run is only a first guess --
+	// for every injection of the list, not only the last one
 	last := len(injects) - 1
-	cands := candidates(injects[last], maxTry)
+	plan := attemptPlan(injects, maxTry)
 	var lastErr error
-	for _, n := range cands {
-		injects[last].N = n
+	for _, ns := range plan {
+		for i := range injects {
+			injects[i].N = ns[i]
+		}
 		e, err := setupRun(sc)
 		if err != nil {
 			return nil, nil, nil, err
@@ -833,11 +896,13 @@ func runInjected(sc scenario, injects []injectSpec, ref []step, expect []byte, m
 		atomic.AddInt64(&injectRuns, 1)
 		if ok {
 			hitMu.Lock()
-			key := fmt.Sprintf("%s#%d", injects[last].Sys, injects[last].Event)
-			if hitHist[key] == nil {
-				hitHist[key] = map[int]int{}
+			for _, in := range injects {
+				key := fmt.Sprintf("%s#%d", in.Sys, in.Event)
+				if hitHist[key] == nil {
+					hitHist[key] = map[int]int{}
+				}
+				hitHist[key][in.N]++
 			}
-			hitHist[key][n]++
 			hitMu.Unlock()
 			return e, lg, evs, nil
 		}
@@ -1085,6 +1150,12 @@ func runFmtRecord() {
 			}
 		}
 	}
+	hitMu.Lock()
+	if hb, err := json.Marshal(hitHist); err == nil {
+		os.WriteFile("fmt_hist.json", hb, 0644)
+	}
+	hitMu.Unlock()
+	os.WriteFile("fmt_calib.txt", []byte(strconv.FormatInt(atomic.LoadInt64(&slowestRun), 10)), 0644)
 	hlib.EmitRaw(map[string]any{"v": "summary", "traces_recorded": id, "scenarios": len(scs), "record_inject_attempts": atomic.LoadInt64(&injectRuns)})
 	hlib.EmitRaw(map[string]any{"v": "summary", "program_classes": classes})
 }
@@ -1094,7 +1165,7 @@ func corruptTrace(p *traceProg, how string) {
 	switch how {
 	case "mode":
 		for i := range p.Steps {
-			if p.Steps[i].Op == "CreateExcl" || p.Steps[i].Op == "Open" {
+			if p.Steps[i].Op == "CreateExcl" || p.Steps[i].Op == "Open" || p.Steps[i].Op == "Chmod" {
 				p.Steps[i].Mode = "0640"
 			}
 		}
@@ -1175,6 +1246,14 @@ func runFmtConfirm() {
 			metas[m.ID] = &m
 		}
 	})
+	if hb, err := os.ReadFile("fmt_hist.json"); err == nil {
+		json.Unmarshal(hb, &hitHist)
+	}
+	if cb, err := os.ReadFile("fmt_calib.txt"); err == nil {
+		if n, err := strconv.ParseInt(strings.TrimSpace(string(cb)), 10, 64); err == nil {
+			atomic.StoreInt64(&slowestRun, n)
+		}
+	}
 	byTrace := map[int][]stateRec{}
 	hlib.ForEachCase(func(idx int, c *stateRec) {
 		if c.Kind != "state" {
